@@ -303,25 +303,21 @@ Definition wf_attrv {G} (wfg : G -> bool) (ty : Z) (v : AttrV G) : bool :=
   | ASparse => false
   end.
 
-Definition is_graph_ty (ty : Z) : bool := (ty =? AttributeType_GRAPH) || (ty =? AttributeType_GRAPHS).
-
-(* rg: reference attributes of type GRAPH/GRAPHS are allowed (false when the model has device
-   configurations: known finding C02 ref-graph-attr-crash) *)
-Definition wf_attr {G} (allow_ref rg : bool) (wfg : G -> bool) (a : AttrP G) : bool :=
+Definition wf_attr {G} (allow_ref : bool) (wfg : G -> bool) (a : AttrP G) : bool :=
   let ty := dflt 0 (a_type a) in
   valid_attrtype ty && negb (is_sparse_ty ty) &&
   match truthy (a_ref a) with
-  | Some _ => allow_ref && (rg || negb (is_graph_ty ty)) && match a_val a with ANone => true | _ => false end
+  | Some _ => allow_ref && match a_val a with ANone => true | _ => false end
   | None => negb (ty =? AT_UNDEFINED) && wf_attrv wfg ty (a_val a)
   end.
 
 Definition wf_nodedev (d : NodeDevP) : bool :=
   negb (is_none (truthy (nd_conf d))) && forallb (fun s => negb (is_none (truthy (sp_tensor s)))) (nd_specs d).
 
-Definition wf_node {G} (allow_dev rg : bool) (wfg : list str -> G -> bool) (visible : list str) (n : NodeP G) : bool :=
+Definition wf_node {G} (allow_dev : bool) (wfg : list str -> G -> bool) (visible : list str) (n : NodeP G) : bool :=
   forallb (fun i => negb (nonempty i) || in_str i visible) (n_inputs n)
   && nodup_str (map (fun a => dflt [] (a_name a)) (n_attrs n))
-  && forallb (wf_attr true rg (wfg visible)) (n_attrs n)
+  && forallb (wf_attr true (wfg visible)) (n_attrs n)
   && wf_dict (n_meta n)
   && (allow_dev || negb (nonempty (n_dev n))) && forallb wf_nodedev (n_dev n).
 
@@ -332,7 +328,7 @@ Definition declared (g : GraphP) : list str :=
 
 (* allow_dev: device configurations may appear on this graph's own nodes (model IR version >= 11);
    nested graphs are serialized without a version and always keep them *)
-Fixpoint wf_graph (fixB allow_dev rg : bool) (visible : list str) (g : GraphP) : bool :=
+Fixpoint wf_graph (allow_dev : bool) (visible : list str) (g : GraphP) : bool :=
   let ins := map vname (g_inputs g) in
   let inits := map tname (g_inits g) in
   let nouts := node_out_names (g_nodes g) in
@@ -351,42 +347,37 @@ Fixpoint wf_graph (fixB allow_dev rg : bool) (visible : list str) (g : GraphP) :
   && nodup_str vis && forallb nonempty vis && disjoint vis (ins ++ outs)
   && nodup_str qs && forallb (fun q => wf_dict (qa_params q) && nonempty (qa_params q)) (g_quant g)
   && forallb (fun q => in_str q decl) qs
-  (* known finding C02-quant-dup: an annotation on a value that is both input/initializer and output *)
-  && forallb (fun q => fixB || negb (in_str q outs && in_str q (ins ++ inits))) qs
   && wf_dict (g_meta g)
-  && forallb (wf_node allow_dev rg (wf_graph fixB true rg) (visible ++ decl)) (g_nodes g).
+  && forallb (wf_node allow_dev (wf_graph true) (visible ++ decl)) (g_nodes g).
 
-Definition wf_function (fixA fixB allow_dev rg : bool) (allow_vinfo : bool) (f : FunctionP) : bool :=
+Definition wf_function (allow_dev : bool) (allow_vinfo : bool) (f : FunctionP) : bool :=
   let nouts := node_out_names (f_nodes f) in
   let decl := f_inputs f ++ nouts in
   let vis := map vname (f_vinfo f) in
   nodup_str (f_inputs f) && forallb nonempty (f_inputs f) && nodup_str nouts && disjoint nouts (f_inputs f)
   && forallb (fun o => in_str o decl) (f_outputs f)
   && nodup_str (f_attr f ++ map (fun a => dflt [] (a_name a)) (f_attr_protos f))
-  && forallb (wf_attr false rg (wf_graph fixB true rg [])) (f_attr_protos f)
+  && forallb (wf_attr false (wf_graph true [])) (f_attr_protos f)
   && (allow_vinfo || negb (nonempty (f_vinfo f)))
   && nodup_str vis && forallb nonempty vis && forallb wf_vinfo (f_vinfo f)
-  (* known finding C02-function-input-value-info: value-info naming a function input *)
-  && (fixA || disjoint vis (f_inputs f))
   && wf_dict (f_opsets f) && wf_dict (f_meta f)
-  && forallb (wf_node allow_dev rg (wf_graph fixB true rg) decl) (f_nodes f).
+  && forallb (wf_node allow_dev (wf_graph true) decl) (f_nodes f).
 
 Definition fident (f : FunctionP) : str * str * str :=
   (dflt [] (f_domain f), dflt [] (f_name f), dflt [] (f_overload f)).
 Fixpoint nodup_fid (l : list (str * str * str)) : bool :=
   match l with [] => true | x :: r => negb (existsb (fkey_eqb x) r) && nodup_fid r end.
 
-Definition wf_model (fixA fixB fixD : bool) (m : ModelP) : bool :=
+Definition wf_model (m : ModelP) : bool :=
   let irv := dflt 0 (m_irv m) in
   let dev := MULTI_DEVICE_SUPPORTED_VERSION <=? irv in
   let fvi := FUNCTION_VALUE_INFO_SUPPORTED_VERSION <=? irv in
-  let rg := fixD || negb (nonempty (m_conf m)) in
   (3 <=? irv) && (irv <=? 13)
   && wf_dict (m_opsets m) && wf_dict (m_meta m)
   && (dev || negb (nonempty (m_conf m)))
-  && wf_graph fixB dev rg [] (m_graph m)
+  && wf_graph dev [] (m_graph m)
   && nodup_fid (map fident (m_funcs m))
-  && forallb (wf_function fixA fixB dev rg fvi) (m_funcs m)
+  && forallb (wf_function dev fvi) (m_funcs m)
   && (fvi || negb (nonempty (m_funcs m))
       || negb (existsb (fun vi => has_slash (vname vi)) (g_vinfo (m_graph m)))).
 
